@@ -4,6 +4,7 @@ from __future__ import annotations
 
 import asyncio
 import inspect
+import random
 from abc import ABC
 from typing import Any
 
@@ -17,26 +18,36 @@ ENGINE = "iso14229-reference"
 TECHNIQUE = (
     "runtime oracle: independent ISO 14229-1 reference encoder vs. the real request classes (construct, .pdu, from_pdu, "
     "parse_dynamic, UDSClient method bytes) on generated boundary/random parameters; icontract postcondition on the real "
-    "uds_memory_parameters"
+    "uds_memory_parameters; second use: pairs of cases of one kind - two live objects, every public field of a constructed / "
+    "parsed object re-assigned to the other case's values (and back), UDSClient.request bytes of the re-used object, a second "
+    "parse of the same bytes after the first result was edited"
 )
 LEVEL_TEXT = (
     "Exploration: every concrete public request class found at run time in gallia.services.uds.core.service is constructed "
     "with boundary and random in-range parameters (both suppress settings, ALFID widths 1..15 x 1..15, 0..n groups, records "
     "of 0..4093 bytes) and one-parameter-out-of-range variants; bytes are compared with an independent reference encoder, "
-    "then parsed back statically and dynamically. Held = held on those cases, not for all parameters."
+    "then parsed back statically and dynamically. Every third case is paired with the previous case of its kind: both objects "
+    "alive at once, all public fields of the first object (constructed, from_pdu, parse_dynamic) re-assigned to the second "
+    "case's values and back, the bytes of the first case parsed again after the first parse result was edited; memory requests "
+    "additionally with single-field re-assignments that keep the widths of the object's ALFID, for all 225 ALFIDs. "
+    "Held = held on those cases, not for all parameters."
 )
 LEVEL_NOTE = "Trusted: the layout table in vf/iso14229.py (appendix A of DESIGN.md) and the constructor-argument mapping in vf/gen_uds.py."
 RULE = (
     "cases = (request class, constructor arguments) from per-class generators: boundary values {0,1,mid,max-1,max} of each "
     "integer field, both suppress-bit settings, all 225 ALFID width pairs, 0..n repeated groups, records of length "
     "0/1/2/255/4093, seeded random fill; plus single-parameter-out-of-range cases; non-trivial = every case except RawRequest; "
-    "distinct = distinct (class, arguments)"
+    "distinct = distinct (class, arguments); re-use cases = (case, next case of the same kind): field values of a request are "
+    "its public attributes at the time of .pdu, a parse result depends on the bytes only"
 )
 ASSUMPTIONS = [
     "reference layouts transcribed from ISO 14229-1 (DESIGN.md appendix A)",
     "classes that list ABC among their direct bases or whose name starts with '_' are not user-constructible kinds",
     "field comparison after parse_dynamic only when the dynamic class equals the constructing class (IOCBI wrappers re-parse as the generic IOCBI request)",
     "an empty securityKey / empty dataRecord of WriteMemoryByAddress is not treated as out of documented range",
+    "re-assignment: only complete re-assignments to another in-range case of the same class (incl. its ALFID field) and single-field "
+    "re-assignments within the widths of the object's ALFID field are judged; a single new value that no longer fits the ALFID "
+    "chosen at construction, and out-of-range values assigned after construction, have no outcome prescribed by the statement",
 ]
 EXHAUSTIVE = {"quick": False, "thorough": False}
 EXHAUSTIVE_NOTE = "exhaustive sub-spaces: all 128x2 sub-function bytes of the 2-byte requests, all 225 ALFID width pairs per memory request kind"
@@ -97,6 +108,20 @@ def required_reach(tier: str) -> dict[str, int]:
         "suppress.set": 100,
         "suppress.clear": 100,
         "alfid.pairs": 225,
+        # second use of an object / second parse of the same bytes
+        "reuse.kinds": 40,
+        "reuse.pairs": 2000,
+        "reuse.changed_bytes": 1000,
+        "reuse.origin.constructed": 2000,
+        "reuse.origin.from_pdu": 2000,
+        "reuse.origin.dynamic": 1000,
+        "reuse.singular_setter": 100,
+        "reuse.client_sent": 100,
+        "reuse.partial": 3000,
+        "reparse.after_edit.static": 2000,
+        "reparse.after_edit.dynamic": 1000,
+        "reparse.after_edit.raw": 20,
+        "reparse.after_edit.generic": 20,
     }
 
 
@@ -122,10 +147,61 @@ def first_diff(a: bytes, b: bytes) -> str:
     return "same"
 
 
+# Public attributes of a request that the generator's field table leaves out because a parse cannot recover them
+# (controlOptionRecord / controlEnableMaskRecord split of service 0x2F).  ISO: the record of the shortTermAdjustment
+# wrapper is inputOutputControlParameter 0x03 followed by the controlStates.
+EXTRA_FIELDS = {
+    "InputOutputControlByIdentifierRequest": lambda c: {"control_option_record": c.args[1], "control_enable_mask_record": c.args[2]},
+    "ShortTermAdjustmentRequest": lambda c: {"control_option_record": b"\x03" + c.args[1], "control_enable_mask_record": c.args[2]},
+}
+# list-valued public attribute -> documented setter for its first element
+SINGULAR = {
+    "data_identifiers": "data_identifier",
+    "source_data_identifiers": "source_data_identifier",
+    "positions_in_source_data_record": "position_in_source_data_record",
+    "memory_sizes": "memory_size",
+    "memory_addresses": "memory_address",
+}
+
+
+def full_fields(c: Case) -> dict[str, Any]:
+    """value of every user-settable public attribute of the request that case `c` describes"""
+    f = dict(c.fields)
+    if c.cls in EXTRA_FIELDS:
+        f.update(EXTRA_FIELDS[c.cls](c))
+    return f
+
+
+def public_vars(o: Any) -> dict[str, Any]:
+    return {k: v for k, v in vars(o).items() if not k.startswith("_")}
+
+
+def assign_fields(o: Any, old: dict[str, Any], new: dict[str, Any], singular: bool) -> int:
+    """A user re-assigns every public field of `o` (currently holding `old`) to the values `new`.  With `singular`, the first
+    element of a list-valued field goes through the class's own first-element setter.  -> number of singular setters used"""
+    used = 0
+    for k, v in new.items():
+        if isinstance(v, list):
+            s = SINGULAR.get(k)
+            d = inspect.getattr_static(type(o), s, None) if s else None
+            if singular and v and isinstance(old.get(k), list) and old[k] and isinstance(d, property) and d.fset is not None:
+                setattr(o, k, [old[k][0]] + list(v[1:]))
+                setattr(o, s, v[0])
+                used += 1
+            else:
+                setattr(o, k, list(v))
+        else:
+            setattr(o, k, v)
+    return used
+
+
 class Monitor:
     def __init__(self, ctx: Any):
         self.ctx = ctx
         self.contract_evals = 0
+        self.reuse_kinds: set[str] = set()
+        # own stream for the decisions of the re-use family, so that the generated cases stay those of the seed
+        self.rng2 = random.Random(f"C01-reuse/{getattr(ctx, 'seed', 0)}/{getattr(ctx, 'shard_index', 0)}")
         self.install_contract()
 
     def install_contract(self) -> None:
@@ -255,6 +331,184 @@ class Monitor:
             return
         ctx.violation(f"{c.cls}/accepts-out-of-range/{c.bad}", f"{c.cls} encodes a parameter outside its documented range ({c.bad})", {"case": c.to_json(), "got": pdu})
 
+    # -- second use of a request object / second parse of the same bytes -------------------------
+    def check_reuse(self, kinds: dict[str, type], a: Case, b: Case, loop: Any = None) -> None:
+        """Two cases of one kind.  The request's fields are its public attributes, and a request whose attributes were
+        assigned is a request a user constructed: (1) two objects alive at once each keep their own bytes; (2) an object built
+        from `a` (by the constructor, by from_pdu, by parse_dynamic) whose public fields are all re-assigned to the values of `b`
+        serialises to the reference bytes of `b`, and to those of `a` again after being set back (third use); (3) parsing the
+        bytes of `a` again after the first parse result was edited still yields the fields and bytes of `a`."""
+        from gallia.services.uds.core import service
+
+        ctx = self.ctx
+        cls = kinds[a.cls]
+        assert a.expect is not None and b.expect is not None
+        ctx.case(("reuse", a.ident(), b.ident()), nontrivial=a.cls != "RawRequest")
+        fa, fb = full_fields(a), full_fields(b)
+        w = {"case": a.to_json(), "then": b.to_json(), "fields": [a.fields, b.fields]}
+        try:
+            oa = cls(*a.args, **a.kwargs)
+            if oa.pdu != a.expect or cls(*b.args, **b.kwargs).pdu != b.expect:
+                return  # a single fresh object is already wrong: check_valid reports that
+            ob = cls(*b.args, **b.kwargs)
+            pa, pb = oa.pdu, ob.pdu
+        except Exception:
+            return  # reported by check_valid
+        ctx.reach("reuse.pairs")
+        if a.expect != b.expect:
+            ctx.reach("reuse.changed_bytes")
+        if pa != a.expect or pb != b.expect:
+            ctx.violation(f"{a.cls}/live-pair-pdu-differs", "a request object serialises differently once a second object of its kind exists", {**w, "got": [pa, pb]})
+            return
+        # every public attribute the table has no value for must be determined by the class, else the assignment is not complete
+        va, vb = public_vars(oa), public_vars(ob)
+        if any(k not in fb and va[k] != vb.get(k) for k in va):
+            ctx.reach(f"reuse.incomplete:{a.cls}")
+            return
+
+        origins: list[tuple[str, Any]] = [("constructed", oa)]
+        try:
+            origins.append(("from_pdu", cls.from_pdu(a.expect)))
+        except Exception:
+            pass  # reported by check_valid
+        try:
+            d1 = service.UDSRequest.parse_dynamic(a.expect)
+        except Exception:
+            d1 = None  # reported by check_valid
+        if type(d1) is cls:
+            origins.append(("dynamic", d1))
+        done = 0
+        for origin, o in origins:
+            if not self.reassigned(o, origin, fa, fb, b, w, True):
+                continue
+            done += 1
+            ctx.reach(f"reuse.origin.{origin}")
+            if origin == "constructed" and loop is not None and self.rng2.random() < 0.15:
+                got = loop.run_until_complete(request_bytes(o))
+                ctx.reach("reuse.client_sent")
+                if isinstance(got, Exception):
+                    ctx.violation(f"client/request/reassigned-raises/{type(got).__name__}", "UDSClient.request raises for a request object whose fields were re-assigned in range", {**w, "error": repr(got)})
+                elif got != b.expect:
+                    ctx.violation(f"client/request/reassigned-bytes-differ/{a.cls}", "UDSClient.request puts other bytes on the wire than the layout of the request's current fields", {**w, "got": got})
+            if origin == "from_pdu":
+                # the first parse result was edited: a second parse of the same bytes
+                ctx.reach("reparse.after_edit.static")
+                try:
+                    again = cls.from_pdu(a.expect)
+                except Exception as e:
+                    ctx.violation(f"{a.cls}/from_pdu-again-raises/{type(e).__name__}", "second from_pdu of the same bytes raises after the first result was edited", {**w, "error": repr(e)})
+                else:
+                    self.compare(a, again, cls, "from_pdu-again", w, True)
+            elif origin == "dynamic":
+                if a.cls == "RawRequest":
+                    ctx.reach("reparse.after_edit.raw")  # the raw fallback object, edited through its pdu setter
+                self.check_dynamic_again(a, cls, w)
+            # third use: back to the first values
+            self.reassigned(o, origin + "-back", fb, fa, a, w, False)
+        if done:
+            self.reuse_kinds.add(a.cls)
+        if d1 is not None and type(d1) is not cls:
+            # raw fallback / generic class of the service: edit whatever came back, then parse again
+            if self.edit_foreign(d1, b):
+                self.check_dynamic_again(a, cls, w)
+
+    def reassigned(self, o: Any, origin: str, old: dict[str, Any], new: dict[str, Any], target: Case, w: dict[str, Any], singular: bool) -> bool:
+        ctx = self.ctx
+        try:
+            used = assign_fields(o, old, new, singular)
+        except AttributeError:
+            ctx.reach(f"reuse.not_assignable:{target.cls}")  # a class with read-only fields offers no such use
+            return False
+        if used:
+            ctx.reach("reuse.singular_setter", used)
+        try:
+            p = o.pdu
+        except Exception as e:
+            ctx.violation(f"{target.cls}/reassigned-{origin}-pdu-raises/{type(e).__name__}", "a request whose public fields were re-assigned to in-range values cannot be serialised", {**w, "error": repr(e)})
+            return True
+        if p != target.expect:
+            ctx.violation(f"{target.cls}/reassigned-{origin}-pdu-differs/{first_diff(p, target.expect or b'')}", "a request whose public fields were re-assigned does not serialise to the ISO layout of its current field values",
+                          {**w, "got": p, "want": target.expect, "fields": repr(public_vars(o))[:400]})
+        return True
+
+    def edit_foreign(self, d1: Any, b: Case) -> bool:
+        """edit a parse result that is not of the constructing class (RawRequest fallback, generic IOCBI request)"""
+        from gallia.services.uds.core import service
+
+        if isinstance(d1, service.RawRequest):
+            d1.pdu = b.expect
+            return True
+        try:
+            other = service.UDSRequest.parse_dynamic(b.expect)
+        except Exception:
+            return False
+        mine, changed = public_vars(d1), False
+        for k, v in public_vars(other).items():
+            if k in mine and mine[k] != v:
+                try:
+                    setattr(d1, k, v)
+                except AttributeError:
+                    continue
+                changed = True
+        if changed:
+            self.ctx.reach("reparse.after_edit.generic")
+        return changed
+
+    def check_dynamic_again(self, c: Case, cls: type, w: dict[str, Any]) -> None:
+        """same demands as for the first dynamic parse in check_valid, on a parse made after an earlier result was edited"""
+        from gallia.services.uds.core import service
+
+        ctx = self.ctx
+        ctx.reach("reparse.after_edit.dynamic")
+        assert c.expect is not None
+        try:
+            dyn = service.UDSRequest.parse_dynamic(c.expect)
+        except Exception as e:
+            ctx.violation(f"{c.cls}/dynamic-again-raises/{type(e).__name__}", "second parse_dynamic of the same bytes raises", {**w, "error": repr(e)})
+            return
+        if c.cls == "RawRequest":
+            if dyn.pdu != c.expect:
+                ctx.violation("RawRequest/dynamic-again-bytes", "second dynamic parse of the same raw bytes yields other bytes after the first result was edited", {**w, "got": dyn.pdu})
+            return
+        if isinstance(dyn, service.RawRequest):
+            ctx.violation(f"{c.cls}/dynamic-again-degraded-to-raw", f"second parse_dynamic of well-formed {c.cls} bytes degrades to RawRequest", w)
+            return
+        if dyn.service_id != c.expect[0] or dyn.pdu != c.expect:
+            ctx.violation(f"{c.cls}/dynamic-again-bytes", "second parse_dynamic of the same bytes yields a request with other bytes after the first result was edited", {**w, "got": dyn.pdu})
+            return
+        want_dyn = gen_uds.DYNAMIC_GENERIC.get(c.cls, c.cls)
+        if type(dyn).__name__ != want_dyn:
+            ctx.violation(f"{c.cls}/dynamic-again-class/{type(dyn).__name__}", "second parse_dynamic yields a request of another kind", {**w, "got": type(dyn).__name__})
+            return
+        if type(dyn) is cls:
+            self.compare(c, dyn, cls, "dynamic-again", w, False)
+
+    def check_partial(self, kinds: dict[str, type], cls_name: str, args: tuple[Any, ...], steps: list[tuple[str, Any, bytes]]) -> None:
+        """One object, one public field re-assigned at a time; every new value fits the widths of the object's
+        addressAndLengthFormatIdentifier field, so the field values stay a consistent request with one prescribed layout."""
+        ctx = self.ctx
+        try:
+            o = kinds[cls_name](*args)
+        except Exception:
+            return  # reported by check_valid
+        for i, (attr, val, want) in enumerate(steps):
+            w = {"cls": cls_name, "args": list(args), "assignments": [[s[0], s[1]] for s in steps[: i + 1]]}
+            ctx.case(("partial", cls_name, args, i))
+            ctx.reach("reuse.partial")
+            try:
+                setattr(o, attr, val)
+            except AttributeError:
+                ctx.reach(f"reuse.not_assignable:{cls_name}")
+                return
+            try:
+                got = o.pdu
+            except Exception as e:
+                ctx.violation(f"{cls_name}/partial-reassign-pdu-raises/{attr}", "a request with one field re-assigned within the widths of its ALFID cannot be serialised", {**w, "error": repr(e)})
+                return
+            if got != want:
+                ctx.violation(f"{cls_name}/partial-reassign-pdu-differs/{attr}", "a request with one field re-assigned does not serialise to the ISO layout of its current field values", {**w, "got": got, "want": want})
+                return
+
 
 class CaptureTransport:
     """Stands in for a BaseTransport: records the bytes handed over, answers generalReject."""
@@ -301,6 +555,20 @@ async def client_bytes(method: str, c: Case) -> bytes | Exception:
     return t.sent[0] if t.sent else RuntimeError("nothing sent")
 
 
+async def request_bytes(obj: Any) -> bytes | Exception:
+    """bytes UDSClient.request() hands to the transport for an existing request object"""
+    from gallia.services.uds.core.client import UDSClient
+
+    t = CaptureTransport()
+    cl = UDSClient(t, timeout=1.0)  # type: ignore[arg-type]
+    try:
+        await cl.request(obj)
+    except Exception as e:
+        if not t.sent:
+            return e
+    return t.sent[0] if t.sent else RuntimeError("nothing sent")
+
+
 def run(ctx: Any, params: dict[str, Any]) -> None:
     import gallia.command  # noqa: F401  (import order trap)
     from gallia.services.uds.core.client import UDSClient
@@ -323,10 +591,14 @@ def run(ctx: Any, params: dict[str, Any]) -> None:
     try:
         for n in mine:
             seen_valid = seen_invalid = False
-            for _ in range(per):
+            prev: Case | None = None
+            for i in range(per):
                 for c in gen_uds.GEN[n](rng):
                     mon.check_valid(kinds, c)
                     seen_valid = True
+                    if prev is not None and i % 3 == 0:
+                        mon.check_reuse(kinds, prev, c, loop)
+                    prev = c
                     if rng.random() < 0.02:
                         ctx.sample({"cls": c.cls, "args": list(c.args), "expect": c.expect})
             if n in gen_uds.BADGEN:
@@ -375,6 +647,22 @@ def run(ctx: Any, params: dict[str, Any]) -> None:
                     mon.check_valid(kinds, Case("RequestDownloadRequest", (a, s, 1, 2, None), {}, iso.req_updown(0x34, a, s, 1, 2, f), {"memory_address": a, "memory_size": s}))
                     mon.check_valid(kinds, Case("RequestUploadRequest", (a, s, 0, 0, f), {}, iso.req_updown(0x35, a, s, 0, 0, f), {"memory_address": a, "memory_size": s}))
                     mon.check_valid(kinds, Case("DefineByMemoryAddressRequest", (0xF200, [a, 0], [s, 1], None, False), {}, iso.req_dddi_by_mem(0xF200, [(a, s), (0, 1)], f), {"memory_addresses": [a, 0], "memory_sizes": [s, 1]}))
+                    # one object, one field re-assigned at a time, widths of the object's ALFID kept
+                    mon.check_partial(kinds, "ReadMemoryByAddressRequest", (1, 1, f), [
+                        ("memory_address", a, iso.req_rmba(a, 1, f)), ("memory_size", s, iso.req_rmba(a, s, f)), ("memory_address", 0, iso.req_rmba(0, s, f))])
+                    mon.check_partial(kinds, "ReadMemoryByAddressRequest", (a, s, None), [  # ALFID chosen by the constructor, shown as a field
+                        ("memory_address", a - 1, iso.req_rmba(a - 1, s, f)), ("memory_size", s + 1, iso.req_rmba(a - 1, s + 1, f))])
+                    mon.check_partial(kinds, "WriteMemoryByAddressRequest", (1, b"\xaa", 1, f), [
+                        ("memory_address", a, iso.req_wmba(a, b"\xaa", 1, f)), ("data_record", b"\xbb\xcc", iso.req_wmba(a, b"\xbb\xcc", 1, f)),
+                        ("memory_size", s, iso.req_wmba(a, b"\xbb\xcc", s, f))])
+                    for cn, sid in (("RequestDownloadRequest", 0x34), ("RequestUploadRequest", 0x35)):
+                        mon.check_partial(kinds, cn, (1, 1, 1, 2, f), [
+                            ("memory_address", a, iso.req_updown(sid, a, 1, 1, 2, f)), ("memory_size", s, iso.req_updown(sid, a, s, 1, 2, f)),
+                            ("compression_method", 0xF, iso.req_updown(sid, a, s, 0xF, 2, f)), ("encryption_method", 0, iso.req_updown(sid, a, s, 0xF, 0, f))])
+                    mon.check_partial(kinds, "DefineByMemoryAddressRequest", (0xF200, [1, 0], [1, 1], f, False), [
+                        ("memory_address", a, iso.req_dddi_by_mem(0xF200, [(a, 1), (0, 1)], f)), ("memory_sizes", [s, 1], iso.req_dddi_by_mem(0xF200, [(a, s), (0, 1)], f)),
+                        ("suppress_response", True, iso.req_dddi_by_mem(0xF200, [(a, s), (0, 1)], f, True)),
+                        ("dynamically_defined_data_identifier", 0xF3FF, iso.req_dddi_by_mem(0xF3FF, [(a, s), (0, 1)], f, True))])
             ctx.reach("client.methods_exercised", 0)
             unmapped = sorted(public_methods - set(CLIENT_METHODS) - {"connect", "reconnect", "reconnect_unsafe", "request", "request_unsafe"})
             if unmapped:
@@ -382,6 +670,7 @@ def run(ctx: Any, params: dict[str, Any]) -> None:
     finally:
         loop.close()
     ctx.reach("client.methods_exercised", len(methods_seen) if params["part"] == 0 else 0)
+    ctx.reach("reuse.kinds", len(mon.reuse_kinds) if params["part"] == 0 else 0)
     ctx.reach("contract.uds_memory_parameters", mon.contract_evals)
 
 
@@ -393,13 +682,22 @@ def replay(ctx: Any, witness: dict[str, Any]) -> None:
             return bytes.fromhex(o[4:])
         if isinstance(o, list):
             return [unhex(x) for x in o]
+        if isinstance(o, dict):
+            return {k: unhex(v) for k, v in o.items()}
         return o
 
     kinds = enumerate_kinds()
     mon = Monitor(ctx)
     cj = witness["case"]
     c = Case(cj["cls"], tuple(unhex(cj["args"])), cj.get("kwargs", {}), unhex(cj.get("expect")), {}, cj.get("bad", ""))
-    if c.expect is None:
+    if "assignments" in witness:
+        return  # check_partial witnesses name the constructor arguments and the assignments; re-create by hand
+    if "then" in witness and c.expect is not None:
+        tj = witness["then"]
+        b = Case(tj["cls"], tuple(unhex(tj["args"])), tj.get("kwargs", {}), unhex(tj.get("expect")), unhex(witness.get("fields", [{}, {}])[1]))
+        c.fields = unhex(witness.get("fields", [{}, {}])[0])
+        mon.check_reuse(kinds, c, b, None)
+    elif c.expect is None:
         mon.check_invalid(kinds, c)
     else:
         mon.check_valid(kinds, c)
